@@ -16,9 +16,13 @@ CELL = 64
 TN = {I32: 'i32', I64: 'i64'}
 
 
-def main():
+def main(imported=False):
     m = Module()
-    m.mems.append(Limits(1, 2, shared=True))
+    if imported:
+        from wasmgen.wasm_ast import Import
+        m.imports.append(Import(b"env", b"memory", "memory", Limits(1, 2, shared=True)))
+    else:
+        m.mems.append(Limits(1, 2, shared=True))
     tix = {}
 
     def ty(params, results):
@@ -64,9 +68,12 @@ def main():
                 calls.append([nm.encode().hex(), [[TN[t], v] for v in s]])
     spec = {"note": "directed: every atomic load/store/rmw/cmpxchg instruction (63), old value and resulting cell, through real w2c2 -> gcc vs V8; ops in order: " + " ".join(ops),
             "hex": encode(m).hex(), "imports_spec": {'globals': {}}, "calls": calls}
-    out = os.path.join(HERE, "C16", "all-atomics.json")
+    if imported:
+        spec["note"] = "same as all-atomics.json, but the shared memory is IMPORTED (wasi-threads layout): " + spec["note"]
+    out = os.path.join(HERE, "C16", "all-atomics-imported-memory.json" if imported else "all-atomics.json")
     json.dump(spec, open(out, "w"), indent=1)
     print(out, len(ops), "ops", len(calls), "calls")
 
 
 main()
+main(imported=True)
